@@ -113,8 +113,15 @@ func resolveComputedFields(env *Environment, errorSink *validation.ErrorSink) *E
 			if operandType == nil {
 				return t
 			}
-			// negation is defined for the operands that the arithmetic operators are defined for
-			kind, isPrimitive := GetKindIfPrimitive(operandType)
+			// negation is defined for the operands that the arithmetic operators are defined for, and for arrays of
+			// them (`-a[0]` negates the array before it is subscripted; arrays are negated element-wise)
+			elementType := operandType
+			if gt, ok := GetUnderlyingType(operandType).(*GeneralizedType); ok {
+				if _, isArray := gt.Dimensionality.(*Array); isArray {
+					elementType = gt.ToScalar()
+				}
+			}
+			kind, isPrimitive := GetKindIfPrimitive(elementType)
 			if !isPrimitive || (kind != PrimitiveKindInteger && kind != PrimitiveKindFloatingPoint && kind != PrimitiveKindComplexFloatingPoint) {
 				errorSink.Add(validationError(t, "operator not defined for an operand of type '%s'", TypeToShortSyntax(operandType, true)))
 			}
